@@ -298,6 +298,8 @@ func recreated(c *ev.Check) {
 		}
 		sp.Close(s)
 		c.Add("recreate_scenarios", 1)
+		// (the add-only read hook works by reflection: recorded so that a hook that silently sees nothing shows)
+		c.Add("cache_keys_seen_through_hook", int64(len(tokenwebhook.VerifCacheKeys(s.authn))+len(sarwebhook.VerifCacheKeys(s.authz))))
 	}
 }
 
